@@ -99,6 +99,7 @@ type checkResult struct {
 	Known       []string
 	KnownReplays []interface{}
 	Bounded     map[string]interface{}
+	Lockset     map[string]interface{}
 	Stats       SolveStats
 	Orphans     []string
 	Lemmas      int
@@ -362,7 +363,22 @@ func runProperty(w *World, res *checkResult, thorough bool, timeoutMs int) {
 	}
 	all = append(all, w.writersObligations(p)...)
 	if p == "C20" {
-		all = append(all, w.locksetObligations()...)
+		lo := w.locksetObligations()
+		all = append(all, lo...)
+		fnset := map[string]bool{}
+		for _, o := range lo {
+			fnset[o.Fn] = true
+		}
+		var decl []string
+		for _, gd := range w.cs.Guards {
+			decl = append(decl, gd.Kind+" "+strings.Join(gd.Fields, ", ")+func() string {
+				if gd.By != "" {
+					return " by " + gd.By
+				}
+				return ""
+			}())
+		}
+		res.Lockset = map[string]interface{}{"functions_with_guarded_accesses": len(fnset), "access_obligations": len(lo), "declarations": decl}
 	}
 	if p == "C12" {
 		// the serialisation of socket writes is part of C12 as well
@@ -597,6 +613,9 @@ func writeEvidence(w *World, res *checkResult, path string, seed int) {
 	cov["violations"] = vio
 	if len(res.Known) > 0 {
 		cov["explanation"] = fmt.Sprintf("%d obligations are not discharged and match entries of known-findings.txt; they are counted as not discharged", len(res.Known))
+	}
+	if res.Lockset != nil {
+		cov["lock_discipline"] = res.Lockset
 	}
 	if res.Bounded != nil {
 		level = "other"
